@@ -437,12 +437,23 @@ bursts:
 		if d := time.Duration(target - s.log.Now()); d > 0 {
 			time.Sleep(d)
 		}
-		rec := s.runConn(len(sp.Bursts), fmt.Sprintf("s%d-late", idx), connSpec{Calls: 2, PauseUs: []int64{0, 30000}})
-		if rec.FirstResp != 0 {
-			r.Class("late-connect-served")
-		} else {
-			r.Class("late-connect-not-served")
+		// A small volley 300 us apart: the interesting window (a connection
+		// accepted while the timer callback is closing the listener) is narrow.
+		var lw sync.WaitGroup
+		for v := 0; v < 4; v++ {
+			lw.Add(1)
+			go func(v int) {
+				defer lw.Done()
+				time.Sleep(time.Duration(v) * 300 * time.Microsecond)
+				rec := s.runConn(len(sp.Bursts), fmt.Sprintf("s%d-late%d", idx, v), connSpec{Calls: 2, PauseUs: []int64{0, 30000}})
+				if rec.FirstResp != 0 {
+					r.Class("late-connect-served")
+				} else {
+					r.Class("late-connect-not-served")
+				}
+			}(v)
 		}
+		lw.Wait()
 	}
 
 	// Wait for the return: bounded-progress restatement.
